@@ -90,6 +90,32 @@ pub fn run(tier: &str, seed: u64, dir: &str) {
                 }
             }
         }
+        // NewChannelReq → DlChannelReq → NewChannelReq on one slot: the re-definition (another
+        // frequency, or the same frequency with another data-rate range) drops the pairing; then
+        // uplinks on a plan reduced to that channel so that RX1 is observed on it
+        if !is_fixed(region) {
+            let nd = num_default_channels(region) as u8;
+            for (k, idx) in [nd, nd + 1, 15].into_iter().enumerate() {
+                for same_freq in [false, true] {
+                    let mut h = Hist::new("C10", region, 20, 0, rng.next() & 0xff, &[], None);
+                    let f1 = lo + 900_000 + 200_000 * k as u32;
+                    let f2 = if same_freq { f1 } else { f1 + 200_000 };
+                    h.abp().send(1, false, &[1]);
+                    h.rx_auth("rx1", 0, 1, false, &new_channel_req(idx, f1, 0x50), None, &[]).snap();
+                    h.send(1, false, &[2]);
+                    h.rx_auth("rx1", 0, 1, false, &dl_channel_req(idx, lo + 700_000), None, &[]).snap();
+                    h.send(1, false, &[3]);
+                    h.rx_auth("rx2", 0, 1, false, &new_channel_req(idx, f2, if same_freq { 0x30 } else { 0x50 }), None, &[]).snap();
+                    h.send(1, false, &[4]);
+                    h.rx_auth("rx1", 0, 1, false, &link_adr_req(15, 15, 1u16 << idx, 0, 1), None, &[]).snap();
+                    for _ in 0..3 {
+                        h.send(1, false, &[5]).timeout().snap();
+                    }
+                    let op = h.done();
+                    sink.case(&op, &eval(&op), "newchannel-after-dlchannel", true);
+                }
+            }
+        }
         let n = if thorough { 1500 } else { 80 };
         for _ in 0..n {
             let mut o = Opts::default();
